@@ -351,6 +351,19 @@ struct derived_t : base_t
   int w;
 };
 
+struct rnode
+{
+  int v;
+  std::vector<fcppt::recursive<rnode>> children;
+};
+bool rnode_eq(rnode const &l, rnode const &r)
+{
+  if (l.v != r.v || l.children.size() != r.children.size()) return false;
+  for (std::size_t i = 0; i < l.children.size(); ++i)
+    if (!rnode_eq(l.children[i].get(), r.children[i].get())) return false;
+  return true;
+}
+
 void wrappers(i64 a, i64 b)
 {
   count(a == b);
@@ -393,6 +406,30 @@ void wrappers(i64 a, i64 b)
     C17_CHECK(r1.get() == b && &r1.get() != &r3.get() && (r1 == r3), "recursive|copy-assignment|value", "recursive assignment");
     fcppt::recursive<int> const &cr = r1;
     C17_CHECK(&cr.get() == &r1.get(), "recursive|get|const-and-non-const-agree", "recursive get");
+    // self copy-assignment keeps the value; a moved-from object can be assigned to again (the
+    // usual contract of a moved-from object: assignable and destructible) and then holds a copy
+    fcppt::recursive<int> &alias = r1;
+    r1 = alias;
+    C17_CHECK(r1.get() == b, "recursive|copy-assignment|self", "recursive self-assignment");
+    r2 = r3; // r2 was moved from above
+    C17_CHECK(r2.get() == b && &r2.get() != &r3.get(), "recursive|copy-assignment|into-moved-from", "copy-assignment into a moved-from recursive");
+    fcppt::recursive<int> r4{x};
+    fcppt::recursive<int> r5{std::move(r4)};
+    r4 = std::move(r5);
+    C17_CHECK(r4.get() == a, "recursive|move-assignment|into-moved-from", "move-assignment into a moved-from recursive");
+  }
+  // recursive used for what it is for: a recursive data structure. Replacing a node by (a copy
+  // of) one of its own children - the source lives inside the target - yields exactly that child
+  {
+    rnode leaf1{x, {}}, leaf2{y, {}};
+    rnode inner{x + 10, {fcppt::recursive<rnode>{leaf1}, fcppt::recursive<rnode>{leaf2}}};
+    rnode root{y + 20, {fcppt::recursive<rnode>{inner}, fcppt::recursive<rnode>{leaf2}}};
+    fcppt::recursive<rnode> r{root};
+    C17_CHECK(rnode_eq(r.get(), root) && rnode_eq(root.children[0].get(), inner), "recursive|nested|deep-copy", "nested recursive copy");
+    r = r.get().children[0]; // copy-assignment from a sub-object of the target
+    C17_CHECK(rnode_eq(r.get(), inner), "recursive|copy-assignment|from-own-child", "recursive assigned from its own child is not that child");
+    r = fcppt::recursive<rnode>{r.get().children[1]}; // move-assignment from a copy of a grandchild
+    C17_CHECK(rnode_eq(r.get(), leaf2), "recursive|move-assignment|from-copy-of-own-child", "recursive move-assigned from a copy of its own child");
   }
   // unique_ptr: exposes exactly the object it was made for; moves keep the address
   {
